@@ -101,6 +101,11 @@ def random_pipeline(rng, n_pumps=None, slurry=None, entrance_zero=None, dia_choi
         # section names are labels: several lengths of 'Pontoon pipe', or sections left on the class default name, are ordinary
         nm = f'pipe {i}' if rng.random() < 0.65 else rng.choice(['Pontoon pipe', 'Pipe Section', 'pipe 1'])
         secs.append(Pipe(nm, d, L, rng.choice([0.0, 0.1, 0.5, 1.0, 2.0]), rng.uniform(-15.0, 10.0) if L > 0 or rng.random() < 0.5 else 0.0))
+    if zero_first and len(secs) >= 2 and rng.random() < 0.12:
+        # an interior fitting that is a field-for-field twin of the zero-length entrance (rows copied in a table, sections left on default names): it is an
+        # interior zero-length section like any other
+        e0 = secs[0]
+        secs.insert(rng.randint(1, len(secs) - 1), Pipe(e0.name, e0.diameter, 0.0, e0.total_K, e0.elev_change))
     # pumps anywhere strictly between the first and the last pipe
     placed = []
     for _ in range(n_pumps):
